@@ -454,11 +454,11 @@ def _verus_rice(prop: str, which) -> List[Obl]:
     return out
 
 
-def _verus_zeta(prop: str, which) -> List[Obl]:
+def _verus_zeta(prop: str, which, feats="") -> List[Obl]:
     out = []
     for fn, src in which:
-        out.append(Obl(id=f"{prop.lower()}.verus.zeta.{fn}", prop=prop, engine="verus", target=f"zeta:{fn}", fns=[src] if src else [],
-                       note="every k in 1..=63, every value below 2^64-1 (interval capped at 2^64), Seq<bool> stream contract; non-table path (tables: Kani C05)"))
+        out.append(Obl(id=f"{prop.lower()}.verus.zeta.{fn}" + (".checks" if feats else ""), prop=prop, engine="verus", target=f"zeta:{fn}", fns=[src] if src else [],
+                       features=feats, note=("checks configuration (write_bits requires a clean value); " if feats else "") + "every k in 1..=63, every value below 2^64-1 (interval capped at 2^64), Seq<bool> stream contract; non-table path (tables: Kani C05)"))
     return out
 
 
@@ -792,6 +792,7 @@ def _c19() -> List[Obl]:
         out.append(Obl(id=f"c19.checks.codes.golomb.{b}", prop="C19", engine="kani", target=f"obl_codes::golomb_be::{b}::def", features="checks", tier="thorough",
                        kind="bounded", bound="constant modulus; " + UNARY_BOUND, fns=CODE_FNS["golomb"]))
     out += _verus_golomb("C19", [V_MB_W, V_G_W], feats=("checks",))
+    out += _verus_zeta("C19", [V_Z_W, ("write_minimal_binary", "")], feats="checks")
     # bulk copies and byte writes under `checks`; generic copy loops under `no_copy_impls`
     for u, fn in (("copy_to_generic", "copy_to"), ("copy_from_generic", "copy_from")):
         out.append(Obl(id=f"c19.checks.generic.{fn}", prop="C19", engine="verus", target=f"{u}:{fn}", features="checks",
